@@ -12,6 +12,10 @@
 #ifndef EbDecBitstream_h
 #define EbDecBitstream_h
 
+#include <stdint.h>
+#include <string.h>
+#include "EbDefinitions.h"
+
 // Defines the maximum number of bits in a Bitstream word
 #define WORD_SIZE 32
 
@@ -45,12 +49,24 @@ typedef struct {
     /* Next word */
     uint32_t nxt_word;
 
-    /* Max address for Bitstream */
+    /* End of the Bitstream buffer (first byte that must not be read) */
     uint8_t *buf_max;
 } Bitstrm;
 
+/* Loads the 32-bit word at p without reading past the end of the bitstream buffer:
+ * bytes at or beyond end read as 0. */
+static INLINE uint32_t dec_bits_load_word(const void *p, const uint8_t *end) {
+    uint32_t        w = 0;
+    const uintptr_t a = (uintptr_t)p, e = (uintptr_t)end;
+    if (a + sizeof(w) <= e)
+        memcpy(&w, p, sizeof(w));
+    else if (a < e)
+        memcpy(&w, p, (size_t)(e - a));
+    return w;
+}
+
 // Get m_cnt number of bits and update bffer pointers and offset.
-#define GET_BITS(bits, m_pu4_buf, bit_ofst, cur_word, nxt_word, m_cnt) \
+#define GET_BITS(bits, m_pu4_buf, m_end, bit_ofst, cur_word, nxt_word, m_cnt) \
     {                                                                  \
         bits = (cur_word << bit_ofst) >> (WORD_SIZE - m_cnt);          \
         bit_ofst += m_cnt;                                             \
@@ -62,7 +78,8 @@ typedef struct {
             uint32_t pu4_word_tmp;                                     \
             cur_word = nxt_word;                                       \
             /* Getting the next word */                                \
-            pu4_word_tmp = *(m_pu4_buf++);                             \
+            pu4_word_tmp = dec_bits_load_word(m_pu4_buf, m_end);       \
+            m_pu4_buf++;                                               \
                                                                        \
             bit_ofst -= WORD_SIZE;                                     \
             /* Swapping little endian to big endian conversion*/       \
